@@ -328,7 +328,10 @@ func c19Hostile(r *core.Rng) ast.Node {
 		}
 		return ast.StrLit{V: s}
 	}
-	switch r.Intn(5) {
+	switch r.Intn(6) {
+	case 5: // more than 20 bytes but fewer than 17 characters
+		u := []string{"é", "ü", "日", "本", "ß"}[r.Intn(5)]
+		return ast.StrLit{V: []string{"", "a", "ab"}[r.Intn(3)] + strings.Repeat(u, r.Range(7, 16))}
 	case 0:
 		n := r.Range(8, 12)
 		es := make([]ast.Node, n)
@@ -369,7 +372,19 @@ func c19Hostile(r *core.Rng) ast.Node {
 }
 
 func c19Session(r *core.Rng) ([]ast.Node, string) {
-	switch r.Intn(7) {
+	switch r.Intn(8) {
+	case 7: // a call inside a while condition that fails when the condition is tested again after a body pass
+		arr := ast.ArrayLit{Elems: []ast.Node{il(int64(r.Range(2, 9))), il(int64(r.Range(3, 9))), ast.StrLit{V: "x"}}}
+		defs := []ast.Node{
+			ast.Assign{Name: "zchk", Value: ast.FuncLit{Params: []string{"i", "a"}, Body: ast.Binary{Op: "<", L: nm("i"), R: ast.Index{X: nm("a"), I: nm("i")}}}},
+		}
+		var run ast.Node
+		if r.Bool() {
+			run = ast.Assign{Name: "zrun", Value: ast.FuncLit{Params: []string{"a"}, Body: ast.Block{Stmts: []ast.Node{ast.Assign{Name: "i", Value: il(0)}, ast.While{Cond: icall("zchk", nm("i"), nm("a")), Body: ast.Assign{Name: "i", Value: ast.Binary{Op: "+", L: nm("i"), R: il(1)}}}, nm("i")}}}}
+		} else { // the loop is the function's value
+			run = ast.Assign{Name: "zrun", Value: ast.FuncLit{Params: []string{"a"}, Body: ast.Block{Stmts: []ast.Node{ast.Assign{Name: "i", Value: il(0)}, ast.While{Cond: icall("zchk", nm("i"), nm("a")), Body: ast.Block{Stmts: []ast.Node{ast.Assign{Name: "i", Value: ast.Binary{Op: "+", L: nm("i"), R: il(1)}}, nm("i")}}}}}}}
+		}
+		return append(defs, run, icall("zrun", arr)), "call-in-while-condition-at-loop-back"
 	case 6: // the failing generator runs in a recycled context whose previous generator was dropped while suspended d calls deep
 		f, _ := faultExpr(r, r.Intn(6))
 		d := int64(r.Range(0, 6))
@@ -604,6 +619,6 @@ func init() {
 		Families: []core.Family{
 			{Name: "reports", Count: countFn(12000, 1500000), Run: c19Case},
 		},
-		Floors: []core.Floor{{Key: "reports_checked", Quick: 3000, Thor: 300000}, {Key: "frames_checked", Quick: 8000, Thor: 800000}, {Key: "reports_from_inside_generators", Quick: 500, Thor: 50000}, {Key: "tag:err:", Quick: 7, Thor: 7}, {Key: "tag:op:", Quick: 12, Thor: 12}, {Key: "tag:failure-at:", Quick: 22, Thor: 22}},
+		Floors: []core.Floor{{Key: "reports_checked", Quick: 3000, Thor: 300000}, {Key: "frames_checked", Quick: 8000, Thor: 800000}, {Key: "reports_from_inside_generators", Quick: 500, Thor: 50000}, {Key: "tag:err:", Quick: 7, Thor: 7}, {Key: "tag:op:", Quick: 12, Thor: 12}, {Key: "tag:failure-at:", Quick: 23, Thor: 23}},
 	})
 }
